@@ -24,6 +24,8 @@ def enc(v):
     if isinstance(v, bool):
         return {"t": "bool", "v": v}
     if isinstance(v, int):
+        if abs(v) >= 1 << 13000:  # beyond CPython's int -> decimal text limit: hexadecimal has no such limit
+            return {"t": "int", "v": hex(v)}
         return {"t": "int", "v": str(v)}
     if isinstance(v, float):
         return {"t": "float", "v": v.hex() if math.isfinite(v) else repr(v)}
@@ -47,7 +49,7 @@ def dec(d):
     if t == "bool":
         return bool(d["v"])
     if t == "int":
-        return int(d["v"])
+        return int(d["v"], 0) if "x" in d["v"] else int(d["v"])
     if t == "float":
         s = d["v"]
         return float.fromhex(s) if "x" in s else float(s)
